@@ -331,6 +331,8 @@ var (
 	c13KindsPlain  = []string{"helper", "no-witness", "wrong-preimage", "missing-signature"}
 	c13KindsSigAll = []string{"helper", "helper-one-output-unsigned", "helper-wrong-preimage-on-one-output",
 		"harness-outputs", "harness-one-output-unsigned", "harness-wrong-preimage-on-one-output", "harness-outputs-foreign-key",
+		// one output's witness has the signature but no "preimage" member at all (the other output has the right one)
+		"harness-last-output-preimage-member-absent", "harness-first-output-preimage-member-absent",
 		"no-witness", "wrong-preimage", "missing-signature"}
 )
 
@@ -463,6 +465,13 @@ func (r *c13Runner) run(cs c13Case) (lkCaseRes, error) {
 		switch {
 		case strings.HasSuffix(base, "one-output-unsigned"):
 			outs[len(outs)-1].Witness = ""
+		case strings.HasSuffix(base, "output-preimage-member-absent"):
+			k := len(outs) - 1
+			if strings.Contains(base, "first-output") {
+				k = 0
+			}
+			B, _ := hex.DecodeString(outs[k].B_)
+			outs[k].Witness = lkWitnessJSON("P2PK", "", []string{lkSign("K1", lkSha(B), 0)})
 		case strings.HasSuffix(base, "wrong-preimage-on-one-output"):
 			one := cashu.BlindedMessages{outs[0]}
 			if strings.HasPrefix(base, "helper") {
